@@ -23,6 +23,7 @@ Target = Id | TupleBinding
 
 class DUModel:
     """stand-in for fpy2.analysis.DefineUseAnalysis (abstract interface; never constructed)"""
+    __standin_abstract__ = True
     defs: 'KeySeq[Definition]'
     uses: 'dict[Key[Definition], set[Key[UseSite]]]'
     successors: 'dict[Key[Definition], set[Key[Definition]]]'
@@ -32,6 +33,7 @@ class DUModel:
 class FuncDefM(FuncDef):
     """stand-in FuncDef; GHOST field `def_use` = the result of DefineUse.analyze on this function
     (natively the replay harness attaches the real analysis under that name)"""
+    __standin_abstract__ = True
     def_use: 'DUModel'
 
 
